@@ -40,7 +40,7 @@ func (c StepCase) String() string {
 	return fmt.Sprintf("%s parked at pass %d of %s", c.Victim, c.Skip+1, c.Site)
 }
 
-var StepVictims = []string{"join", "leave", "switch", "delete"}
+var StepVictims = []string{"join", "leave", "switch", "delete", "lastleave", "create"}
 
 // stepSiteOK: points on the victim's own path; points that every connection
 // or the frame worker pass all the time would park somebody else.
@@ -64,22 +64,37 @@ type stepEnv struct {
 	m, w, v  *scen.C
 	sid      string
 	oldSID   string // switch: the session the victim leaves (and thereby ends)
+	oldUUID  string
 	t        uint32
 	e0, eDel uint32
 	vNP, vP  uint32 // victim's non-persistent and persistent entity
 	base     float64
+	// set by interfere
+	eN     uint32
+	n      *scen.C // newcomer to sid (kept: second witness)
+	x      *scen.C // extra member of sid that leaves during the park (victim join)
+	n2     *scen.C // joins the victim's old / only session by id while its last member leaves
+	n2ok   bool
+	c1, c2 *scen.C // create sessions of their own during the park
+	extra  []*scen.C
+}
+
+func (en *stepEnv) all() []*scen.C {
+	out := []*scen.C{}
+	for _, c := range append([]*scen.C{en.v, en.w, en.m, en.n, en.x, en.n2, en.c1, en.c2}, en.extra...) {
+		if c != nil {
+			out = append(out, c)
+		}
+	}
+	return out
 }
 
 func (en *stepEnv) close() {
-	for _, c := range []*scen.C{en.v, en.w, en.m} {
-		if c != nil {
-			c.Close()
-		}
+	for _, c := range en.all() {
+		c.Close()
 	}
-	for _, c := range []*scen.C{en.v, en.w, en.m} {
-		if c != nil {
-			scen.Departed(en.p, c, 8*time.Second)
-		}
+	for _, c := range en.all() {
+		scen.Departed(en.p, c, 8*time.Second)
 	}
 }
 
@@ -115,6 +130,20 @@ func stepSetup(p *sut.Proc, victim string) *stepEnv {
 	en.v = v
 	switch victim {
 	case "join":
+		// an extra member with a non-persistent entity that will leave during the park
+		x := scen.MustDial(p, "vod")
+		en.x = x
+		_, _, err = x.Join(en.sid)
+		must(err)
+		_, err = x.AddEntity(false, 7)
+		must(err)
+	case "create":
+	case "lastleave":
+		_, _, err = v.Join("")
+		must(err)
+		en.oldSID, en.oldUUID = v.SID, v.UUID
+		_, err = v.AddEntity(true, 3)
+		must(err)
 	case "leave", "delete":
 		_, _, err = v.Join(en.sid)
 		must(err)
@@ -133,11 +162,11 @@ func stepSetup(p *sut.Proc, victim string) *stepEnv {
 	case "switch":
 		_, _, err = v.Join("")
 		must(err)
-		en.oldSID = v.SID
+		en.oldSID, en.oldUUID = v.SID, v.UUID
 		_, err = v.AddEntity(false, 3)
 		must(err)
 	}
-	for _, c := range []*scen.C{m, w, v} {
+	for _, c := range en.all() {
 		_, err := c.Barrier()
 		must(err)
 	}
@@ -149,20 +178,65 @@ func (en *stepEnv) fire(victim string) {
 	switch victim {
 	case "join", "switch":
 		must(v.Send(&hagallpb.ParticipantJoinRequest{Type: d.TJoinReq, Timestamp: d.NewTag(), RequestId: v.NextReqID(), SessionId: en.sid}))
-	case "leave":
+	case "create":
+		must(v.Send(&hagallpb.ParticipantJoinRequest{Type: d.TJoinReq, Timestamp: d.NewTag(), RequestId: v.NextReqID()}))
+	case "leave", "lastleave":
 		v.Close()
 	case "delete":
 		must(v.Send(&hagallpb.EntityDeleteRequest{Type: d.TEntityDelReq, Timestamp: d.NewTag(), RequestId: v.NextReqID(), EntityId: en.vNP}))
 	}
 }
 
-// interfere: the mutator's script; returns the new entity.
-func (en *stepEnv) interfere() (eN uint32, err error) {
+// interfere: what the rest of the world does while the victim is parked.
+func (en *stepEnv) interfere(victim string) (err error) {
+	p := en.p
+	defer func() {
+		if x := recover(); x != nil {
+			err = fmt.Errorf("%v", x)
+		}
+	}()
+	dial := func() *scen.C {
+		c := scen.MustDial(p, "vod")
+		en.extra = append(en.extra, c)
+		return c
+	}
+	departed := func(c *scen.C, who string) {
+		if ok, _ := scen.Departed(p, c, 12*time.Second); !ok {
+			panic(who + "'s handler never returned")
+		}
+	}
+	switch victim {
+	case "create":
+		// every other session ends (the registry becomes empty), then two more sessions are created
+		en.w.Close()
+		en.m.Close()
+		departed(en.w, "the witness")
+		departed(en.m, "the mutator")
+		en.c1, en.c2 = dial(), dial()
+		if _, _, err = en.c1.Join(""); err != nil {
+			return
+		}
+		_, _, err = en.c2.Join("")
+		return
+	case "lastleave":
+		en.n2 = dial()
+		var jr *hagallpb.ParticipantJoinResponse
+		if jr, _, err = en.n2.Join(en.oldSID); err != nil {
+			return
+		}
+		en.n2ok = jr != nil
+		en.c1 = dial()
+		_, _, err = en.c1.Join("")
+		return
+	}
 	m := en.m
-	if eN, err = m.AddEntity(true, 9); err != nil {
+	if en.eN, err = m.AddEntity(true, 9); err != nil {
 		return
 	}
 	if _, err = m.DeleteEntity(en.eDel); err != nil {
+		return
+	}
+	if _, err = m.AddComp(en.t, en.eN, "cn"); err != nil {
 		return
 	}
 	if err = m.UpdateComp(en.t, en.e0, "c1"); err != nil {
@@ -171,11 +245,31 @@ func (en *stepEnv) interfere() (eN uint32, err error) {
 	if _, err = m.Action(en.e0, "a0", 1_700_000_100, "y"); err != nil {
 		return
 	}
-	if _, err = m.AddAsset(eN, "as1"); err != nil {
+	if _, err = m.AddAsset(en.eN, "as1"); err != nil {
 		return
 	}
 	if err = m.Custom([]byte("step-custom")); err != nil {
 		return
+	}
+	// a newcomer joins and stays (second witness)
+	en.n = dial()
+	var jr *hagallpb.ParticipantJoinResponse
+	if jr, _, err = en.n.Join(en.sid); err != nil {
+		return
+	}
+	if jr == nil {
+		return fmt.Errorf("the newcomer's join of the live session %s was refused", en.sid)
+	}
+	if victim == "join" {
+		en.x.Close()
+		departed(en.x, "the extra member")
+	}
+	if victim == "switch" {
+		en.n2 = dial()
+		if jr, _, err = en.n2.Join(en.oldSID); err != nil {
+			return
+		}
+		en.n2ok = jr != nil
 	}
 	_, err = m.Barrier()
 	return
@@ -195,7 +289,7 @@ func StepSites(p *sut.Proc, victim string) (cases []StepCase, err error) {
 	rt(p, "op=mode&v=2")
 	defer p.RT("op=mode&v=0")
 	en.fire(victim)
-	if victim == "leave" {
+	if victim == "leave" || victim == "lastleave" {
 		if ok, _ := scen.Departed(p, en.v, 8*time.Second); !ok {
 			return nil, fmt.Errorf("the leaver never departed")
 		}
@@ -321,81 +415,158 @@ func StepRun(p *sut.Proc, c StepCase) (res *StepResult) {
 		return
 	}
 	res.GateReached = true
-	type ir struct {
-		eN  uint32
-		err error
-	}
-	done := make(chan ir, 1)
-	go func() {
-		eN, err := en.interfere()
-		done <- ir{eN, err}
-	}()
-	var r ir
+	done := make(chan error, 1)
+	go func() { done <- en.interfere(c.Victim) }()
+	var ierr error
 	select {
-	case r = <-done:
+	case ierr = <-done:
 		res.Overlapped = true
 		rt(p, "op=release&site="+site)
 	case <-time.After(250 * time.Millisecond):
-		// the victim is parked inside a critical section the script needs: the
-		// script serialises behind it
+		// the victim is parked inside a critical section the others need: they
+		// serialise behind it
 		rt(p, "op=release&site="+site)
-		r = <-done
+		ierr = <-done
 	}
-	must(r.err)
-	eN := r.eN
+	if ierr != nil {
+		if !p.Alive() {
+			panic(ierr)
+		}
+		// after the release everything must complete: a request that does not is a wedge
+		res.Findings = append(res.Findings, wedgeOrInconclusive(p, c, fmt.Sprintf("after the victim was released, the other connections' requests did not complete (%v)", ierr)))
+		return
+	}
 	res.Signature = fmt.Sprintf("overlapped=%v", res.Overlapped)
 	v, w, m := en.v, en.w, en.m
-	if c.Victim == "leave" {
+	gone := map[*scen.C]bool{}
+	switch c.Victim {
+	case "leave", "lastleave":
+		gone[v] = true
 		if ok, _ := scen.Departed(p, v, 8*time.Second); !ok {
 			res.Findings = append(res.Findings, wedgeOrInconclusive(p, c, "the departing connection's handler never returned after the release"))
 			return
 		}
-	} else {
-		_, err := v.Barrier()
-		must(err)
+	case "create":
+		gone[m], gone[w] = true, true
+	case "join":
+		gone[en.x] = true
 	}
-	if ok, reason, err := p.WaitTicks(en.sid, 3, 10*time.Second); err != nil || !ok {
-		res.Inconclusive = fmt.Sprintf("%s: frame barrier failed: %s %v", c, reason, err)
-		return
-	}
-	for _, cl := range []*scen.C{m, w, v} {
-		if cl == v && c.Victim == "leave" {
-			continue
+	barrierAll := func() {
+		for _, cl := range en.all() {
+			if gone[cl] {
+				continue
+			}
+			if _, err := cl.Barrier(); err != nil {
+				panic(fmt.Errorf("barrier on a live connection: %w", err))
+			}
 		}
-		_, err := cl.Barrier()
-		must(err)
+	}
+	barrierAll()
+	if !gone[m] {
+		if ok, reason, err := p.WaitTicks(en.sid, 3, 10*time.Second); err != nil || !ok {
+			res.Inconclusive = fmt.Sprintf("%s: frame barrier failed: %s %v", c, reason, err)
+			return
+		}
+		barrierAll()
 	}
 	// the victim's answer
-	var joinResp *hagallpb.ParticipantJoinResponse
-	if c.Victim == "join" || c.Victim == "switch" {
+	if c.Victim == "join" || c.Victim == "switch" || c.Victim == "create" {
 		n := 0
 		for _, e := range v.LogCopy() {
-			if jr, ok := e.M.(*hagallpb.ParticipantJoinResponse); ok && jr.SessionId == en.sid {
-				joinResp = jr
+			if jr, ok := e.M.(*hagallpb.ParticipantJoinResponse); ok && (c.Victim == "create" || jr.SessionId == en.sid) && (c.Victim != "switch" || jr.SessionId != en.oldSID) {
+				v.PID, v.SID, v.UUID = jr.ParticipantId, jr.SessionId, jr.SessionUuid
 				n++
 			}
 		}
 		if n != 1 {
-			res.Findings = append(res.Findings, sf([]string{"C04", "C02"}, "step/answer-exactly-once", c, "the join got %d success answers for session %s", n, en.sid))
+			res.Findings = append(res.Findings, sf([]string{"C04", "C02"}, "step/answer-exactly-once", c, "the victim's join got %d success answers; its stream: %v", n, v.LogCopy()))
 			return
 		}
 	}
-	snap, err := scen.Probe(p, en.sid, "vod")
-	must(err)
-	if !snap.Found || snap.State == nil {
-		res.Findings = append(res.Findings, sf([]string{"C01", "C07"}, "step/session-lost", c, "the session cannot be joined afterwards (code %d)", snap.Code))
-		return
+	// --- C07 / C10: every connection that was answered with a successful join
+	// and is still open is in a live session that can be found under its id
+	type claim struct {
+		who string
+		c   *scen.C
 	}
-	for _, cl := range []*scen.C{m, w, v} {
-		if cl == v && c.Victim == "leave" {
+	var claims []claim
+	for _, cl := range []claim{{"the mutator", m}, {"the witness", w}, {"the victim", v}, {"the newcomer", en.n}, {"the joiner of the victim's old session", en.n2}, {"a creator", en.c1}, {"a second creator", en.c2}} {
+		if cl.c != nil && !gone[cl.c] && cl.c.SID != "" {
+			claims = append(claims, cl)
+		}
+	}
+	uuidOf := map[string]string{}
+	probes := map[string]*scen.Snapshot{}
+	for _, cl := range claims {
+		if u, ok := uuidOf[cl.c.SID]; ok {
+			if u != cl.c.UUID {
+				res.Findings = append(res.Findings, sf([]string{"C10", "C07"}, "registry/two-live-sessions-one-id", c, "%s is in session %s uuid %s while another open connection is in session %s uuid %s: two live sessions share an id", cl.who, cl.c.SID, cl.c.UUID, cl.c.SID, u))
+			}
 			continue
 		}
-		_, err := cl.Barrier()
-		must(err)
+		uuidOf[cl.c.SID] = cl.c.UUID
 	}
-	server := stateFromProbe(snap)
+	if len(res.Findings) > 0 {
+		return
+	}
+	for _, cl := range claims {
+		snap := probes[cl.c.SID]
+		if snap == nil {
+			var err error
+			snap, err = scen.Probe(p, cl.c.SID, "vod")
+			must(err)
+			probes[cl.c.SID] = snap
+		}
+		switch {
+		case !snap.Found:
+			res.Findings = append(res.Findings, sf([]string{"C07"}, "join/orphaned", c, "%s was answered with a successful join (session %s uuid %s participant %d) and is still connected, but a probe joining by that id gets error %d", cl.who, cl.c.SID, cl.c.UUID, cl.c.PID, snap.Code))
+		case snap.Join.SessionUuid != cl.c.UUID:
+			res.Findings = append(res.Findings, sf([]string{"C07", "C10"}, "join/orphaned", c, "%s is in session %s uuid %s but that id now names uuid %s", cl.who, cl.c.SID, cl.c.UUID, snap.Join.SessionUuid))
+		default:
+			found := false
+			for _, pp := range snap.State.GetParticipants() {
+				if pp.Id == cl.c.PID {
+					found = true
+				}
+			}
+			if !found {
+				res.Findings = append(res.Findings, sf([]string{"C07", "C01"}, "join/participant-missing", c, "%s (participant %d of session %s) is not among the participants handed to a probe: %v", cl.who, cl.c.PID, cl.c.SID, snap.State.GetParticipants()))
+			}
+		}
+	}
+	if len(res.Findings) > 0 {
+		return
+	}
+	barrierAll()
+	if (c.Victim == "switch" || c.Victim == "lastleave") && !en.n2ok {
+		// nobody is left in the victim's old session: it must have ended
+		old, err := scen.Probe(p, en.oldSID, "vod")
+		must(err)
+		if old.Found && old.Join.SessionUuid == en.oldUUID {
+			res.Findings = append(res.Findings, sf([]string{"C07", "C06"}, "registry/ended-session-still-findable", c, "the session %s that the victim left as its last member (the overlapping join by id was refused) can still be joined", en.oldSID))
+			return
+		}
+	}
+	live := len(uuidOf)
+	if c.Victim != "create" && c.Victim != "lastleave" {
+		en.judgeSession(c, res, probes[en.sid])
+	}
+	if len(res.Findings) > 0 {
+		return
+	}
+	res.Findings = append(res.Findings, registryQuiescent(p, en.base, live, "step-through/"+c.Victim)...)
+	closed = true
+	en.close()
+	if len(res.Findings) == 0 {
+		res.Findings = append(res.Findings, registryQuiescent(p, en.base, 0, "step-through/"+c.Victim+"/after-all-left")...)
+	}
+	return
+}
 
-	// --- C02: exactly-once by content at the witness (present throughout), at most once at a joining victim
+// judgeSession: C01 / C02 / C06 on the main session.
+func (en *stepEnv) judgeSession(c StepCase, res *StepResult, snap *scen.Snapshot) {
+	v, w := en.v, en.w
+	server := stateFromProbe(snap)
 	count := func(cl *scen.C) map[string]int {
 		n := map[string]int{}
 		for _, e := range cl.LogCopy() {
@@ -404,6 +575,8 @@ func StepRun(p *sut.Proc, c StepCase) (res *StepResult) {
 				n[fmt.Sprint("entity-add ", x.Entity.GetId())]++
 			case *hagallpb.EntityDeleteBroadcast:
 				n[fmt.Sprint("entity-delete ", x.EntityId)]++
+			case *hagallpb.EntityComponentAddBroadcast:
+				n[fmt.Sprintf("comp-add %q", x.EntityComponent.GetData())]++
 			case *hagallpb.EntityComponentUpdateBroadcast:
 				n[fmt.Sprintf("comp-update %q", x.EntityComponent.GetData())]++
 			case *vikjapb.EntityActionBroadcast:
@@ -420,56 +593,74 @@ func StepRun(p *sut.Proc, c StepCase) (res *StepResult) {
 		}
 		return n
 	}
-	script := []string{fmt.Sprint("entity-add ", eN), fmt.Sprint("entity-delete ", en.eDel), `comp-update "c1"`, `action "y"`, `asset "as1"`, `custom "step-custom"`}
+	script := []string{fmt.Sprint("entity-add ", en.eN), fmt.Sprint("entity-delete ", en.eDel), `comp-add "cn"`, `comp-update "c1"`, `action "y"`, `asset "as1"`, `custom "step-custom"`}
 	wn := count(w)
 	for _, k := range script {
 		if wn[k] != 1 {
-			res.Findings = append(res.Findings, sf([]string{"C02"}, "relay/not-exactly-once", c, "the witness (a member throughout) received %d relays of the mutator's accepted %s", wn[k], k))
+			res.Findings = append(res.Findings, sf([]string{"C02"}, "relay/not-exactly-once", c, "the witness (a member throughout, subscribed to the component type) received %d relays of the mutator's accepted %s", wn[k], k))
+		}
+	}
+	if k := fmt.Sprint("join ", en.n.PID); wn[k] != 1 {
+		res.Findings = append(res.Findings, sf([]string{"C02", "C01"}, "relay/join-not-exactly-once", c, "the witness received %d join relays for the newcomer (participant %d)", wn[k], en.n.PID))
+	}
+	for _, late := range []*scen.C{en.n, v} {
+		if late == en.v && c.Victim != "join" && c.Victim != "switch" {
+			continue
+		}
+		ln := count(late)
+		for _, k := range script {
+			if ln[k] > 1 {
+				res.Findings = append(res.Findings, sf([]string{"C02"}, "relay/duplicate", c, "a connection that joined during the run received %d relays of the mutator's %s", ln[k], k))
+			}
 		}
 	}
 	if c.Victim == "join" || c.Victim == "switch" {
-		vn := count(v)
-		for _, k := range script {
-			if vn[k] > 1 {
-				res.Findings = append(res.Findings, sf([]string{"C02"}, "relay/duplicate", c, "the joining victim received %d relays of the mutator's %s", vn[k], k))
+		if k := fmt.Sprint("join ", v.PID); wn[k] != 1 {
+			res.Findings = append(res.Findings, sf([]string{"C02", "C01"}, "relay/join-not-exactly-once", c, "the witness received %d join relays for the victim (participant %d)", wn[k], v.PID))
+		}
+	}
+	departedChecks := func(who string, l *scen.C, np, pe uint32) {
+		if k := fmt.Sprint("leave ", l.PID); wn[k] != 1 {
+			res.Findings = append(res.Findings, sf([]string{"C06", "C02"}, "departure/leave-relay-not-exactly-once", c, "the witness received %d leave relays for %s (participant %d)", wn[k], who, l.PID))
+		}
+		if np != 0 {
+			if k := fmt.Sprint("entity-delete ", np); wn[k] != 1 {
+				res.Findings = append(res.Findings, sf([]string{"C06", "C02"}, "departure/entity-delete-relay-not-exactly-once", c, "the witness received %d delete relays for the non-persistent entity %d of %s", wn[k], np, who))
+			}
+			if _, ok := server.Entities[np]; ok {
+				res.Findings = append(res.Findings, sf([]string{"C06"}, "departure/non-persistent-entity-survives", c, "entity %d of %s is still handed to a probe", np, who))
+			}
+			for k := range server.Comps {
+				if k.Entity == np {
+					res.Findings = append(res.Findings, sf([]string{"C06", "C12"}, "departure/component-survives", c, "a component of the removed entity %d is still handed to a probe", np))
+				}
+			}
+			if _, ok := server.Assets[np]; ok {
+				res.Findings = append(res.Findings, sf([]string{"C06", "C14"}, "departure/asset-survives", c, "the asset instance on the removed entity %d is still handed to a probe", np))
+			}
+			for k := range server.Actions {
+				if k.Entity == np {
+					res.Findings = append(res.Findings, sf([]string{"C06", "C13"}, "departure/action-survives", c, "an action on the removed entity %d is still handed to a probe", np))
+				}
 			}
 		}
-		if k := fmt.Sprint("join ", joinResp.ParticipantId); wn[k] != 1 {
-			res.Findings = append(res.Findings, sf([]string{"C02", "C01"}, "relay/join-not-exactly-once", c, "the witness received %d join relays for the victim (participant %d)", wn[k], joinResp.ParticipantId))
+		if pe != 0 {
+			if k := fmt.Sprint("entity-delete ", pe); wn[k] != 0 {
+				res.Findings = append(res.Findings, sf([]string{"C06"}, "departure/persistent-entity-deleted", c, "the witness received %d delete relays for the persistent entity %d of %s", wn[k], pe, who))
+			}
+			if _, ok := server.Entities[pe]; !ok {
+				res.Findings = append(res.Findings, sf([]string{"C06"}, "departure/persistent-entity-lost", c, "persistent entity %d of %s is not handed to a probe", pe, who))
+			}
+		}
+		if server.Participants[l.PID] {
+			res.Findings = append(res.Findings, sf([]string{"C06"}, "departure/participant-survives", c, "%s (participant %d) is still listed", who, l.PID))
 		}
 	}
 	if c.Victim == "leave" {
-		if k := fmt.Sprint("leave ", v.PID); wn[k] != 1 {
-			res.Findings = append(res.Findings, sf([]string{"C06", "C02"}, "departure/leave-relay-not-exactly-once", c, "the witness received %d leave relays for the departed victim (participant %d)", wn[k], v.PID))
-		}
-		if k := fmt.Sprint("entity-delete ", en.vNP); wn[k] != 1 {
-			res.Findings = append(res.Findings, sf([]string{"C06", "C02"}, "departure/entity-delete-relay-not-exactly-once", c, "the witness received %d delete relays for the departed victim's non-persistent entity %d", wn[k], en.vNP))
-		}
-		if k := fmt.Sprint("entity-delete ", en.vP); wn[k] != 0 {
-			res.Findings = append(res.Findings, sf([]string{"C06"}, "departure/persistent-entity-deleted", c, "the witness received %d delete relays for the departed victim's persistent entity %d", wn[k], en.vP))
-		}
-		if _, ok := server.Entities[en.vNP]; ok {
-			res.Findings = append(res.Findings, sf([]string{"C06"}, "departure/non-persistent-entity-survives", c, "entity %d of the departed victim is still handed to a probe", en.vNP))
-		}
-		if _, ok := server.Entities[en.vP]; !ok {
-			res.Findings = append(res.Findings, sf([]string{"C06"}, "departure/persistent-entity-lost", c, "persistent entity %d of the departed victim is not handed to a probe", en.vP))
-		}
-		if server.Participants[v.PID] {
-			res.Findings = append(res.Findings, sf([]string{"C06"}, "departure/participant-survives", c, "the departed victim (participant %d) is still listed", v.PID))
-		}
-		for k := range server.Comps {
-			if k.Entity == en.vNP {
-				res.Findings = append(res.Findings, sf([]string{"C06", "C12"}, "departure/component-survives", c, "a component of the removed entity %d is still handed to a probe", en.vNP))
-			}
-		}
-		if _, ok := server.Assets[en.vNP]; ok {
-			res.Findings = append(res.Findings, sf([]string{"C06", "C14"}, "departure/asset-survives", c, "the asset instance on the removed entity %d is still handed to a probe", en.vNP))
-		}
-		for k := range server.Actions {
-			if k.Entity == en.vNP {
-				res.Findings = append(res.Findings, sf([]string{"C06", "C13"}, "departure/action-survives", c, "an action on the removed entity %d is still handed to a probe", en.vNP))
-			}
-		}
+		departedChecks("the departed victim", v, en.vNP, en.vP)
+	}
+	if c.Victim == "join" {
+		departedChecks("the member that left while the victim was parked", en.x, 0, 0)
 	}
 	if c.Victim == "delete" {
 		if k := fmt.Sprint("entity-delete ", en.vNP); wn[k] != 1 {
@@ -479,35 +670,25 @@ func StepRun(p *sut.Proc, c StepCase) (res *StepResult) {
 	if len(res.Findings) > 0 {
 		return
 	}
-	// --- C01: views
-	wv := foldLog(w, en.t)
-	if diff := wv.Diff(server, "vod"); len(diff) > 0 {
-		res.Findings = append(res.Findings, sf([]string{"C01"}, "view/diverged-after-step", c, "the witness's view differs from the state handed to a probe: %s", strings.Join(diff, "; ")))
-	}
+	// --- C01: views of everybody who only listens
+	views := []struct {
+		who string
+		c   *scen.C
+		sub []uint32
+	}{{"the witness", w, []uint32{en.t}}, {"the newcomer that joined while the victim was parked", en.n, nil}}
 	if c.Victim == "join" || c.Victim == "switch" {
-		vv := foldLog(v)
+		views = append(views, struct {
+			who string
+			c   *scen.C
+			sub []uint32
+		}{"the victim", v, nil})
+	}
+	for _, vw := range views {
+		vv := foldLog(vw.c, vw.sub...)
 		if diff := vv.Diff(server, "vod"); len(diff) > 0 {
-			res.Findings = append(res.Findings, sf([]string{"C01"}, "view/newcomer-diverged", c, "the view of the victim (snapshot handed on joining + relays received, applied on top) differs from the state handed to a later probe: %s\n   victim's stream: %v", strings.Join(diff, "; "), v.LogCopy()))
+			res.Findings = append(res.Findings, sf([]string{"C01"}, "view/diverged-after-step", c, "the view of %s (state handed on joining + relays received, applied on top) differs from the state handed to a probe: %s\n   its stream: %v", vw.who, strings.Join(diff, "; "), vw.c.LogCopy()))
 		}
 	}
-	// --- C07: registry
-	live := 1
-	if c.Victim == "switch" {
-		old, err := scen.Probe(p, en.oldSID, "vod")
-		must(err)
-		if old.Found && old.Join.SessionUuid != "" {
-			// the id may have been reused by nobody here: a session under the old id must be a new one
-			res.Findings = append(res.Findings, sf([]string{"C07", "C06"}, "registry/ended-session-still-findable", c, "the session %s that the switching victim left as its last member can still be joined", en.oldSID))
-			live = 2
-		}
-	}
-	res.Findings = append(res.Findings, registryQuiescent(p, en.base, live, "step-through/"+c.Victim)...)
-	closed = true
-	en.close()
-	if len(res.Findings) == 0 {
-		res.Findings = append(res.Findings, registryQuiescent(p, en.base, 0, "step-through/"+c.Victim+"/after-all-left")...)
-	}
-	return
 }
 
 func wedgeOrInconclusive(p *sut.Proc, c StepCase, what string) *check.Finding {
